@@ -73,6 +73,10 @@ def generate(tier, seed, shard, nshards):
                'polar': rng.random() < 0.4, 'deg': rng.random() < 0.5, 'compact': rng.random() < 0.5}
     for _ in range({'quick': 30, 'thorough': 500}[tier] // nshards + 1):
         yield {'kind': 'display', 'p': rng.randint(1, 6), 'seed': rng.getrandbits(32)}
+    for _ in range({'quick': 16, 'thorough': 320}[tier] // nshards + 1):      # complex values and the display helpers at precisions 7..12
+        yield {'kind': 'complex', 'p': rng.randint(7, 12), 'table': rng.choice(list(TABLES)), 'seed': rng.getrandbits(32),
+               'polar': rng.random() < 0.4, 'deg': rng.random() < 0.5, 'compact': rng.random() < 0.5}
+        yield {'kind': 'display', 'p': rng.randint(7, 12), 'seed': rng.getrandbits(32)}
 
 
 # ------------------------------------------------------------------------------------------------------------------
